@@ -181,7 +181,9 @@ Definition mcheck (c : mcase) : list (N * N * N) :=
    ++ (if ok && negb valid then [(id, 10%N, 0%N)] else [])
    ++ (if ok && negb (forallb section_refused_ok es) then [(id, 17%N, 0%N)] else [])
    ++ (if ok && negb reload then [(id, 11%N, 0%N)] else [])
-   ++ (if ok && negb (forallb (unreg_kept saved) es) then [(id, 15%N, 0%N)] else [])
+   ++ (match saved with   (* [] = no saved file was produced (reported by 11) *)
+       | [] => []
+       | _ => if ok && negb (forallb (unreg_kept saved) es) then [(id, 15%N, 0%N)] else [] end)
    ++ (match leaks with [] => [] | _ => [(id, 12%N, 0%N)] end)
    ++ (match disp with
        | Some dl => if display_hidesb (disp_file dl) then [] else [(id, 16%N, 0%N)]
